@@ -136,11 +136,7 @@ func (in *Interp) quoteIf(verb byte, s Str) Str {
 // symDecimal renders a symbolic integer: the value is concretised (harnesses
 // keep such integers in small ranges).
 func (in *Interp) symDecimal(fr *frame, v SInt, signed bool) Str {
-	c := in.ex.Concretize(v.T)
-	if signed {
-		return Str{S: strconv.FormatInt(sext(c, uint(v.W)), 10)}
-	}
-	return Str{S: strconv.FormatUint(c, 10)}
+	return in.symItoa(v, signed)
 }
 
 type fmtResult struct {
@@ -263,4 +259,37 @@ func fmtErrorf(in *Interp, fr *frame, fn *ssa.Function, a []Value) (Value, bool)
 	copy(b, errs)
 	*p = Struct{r.s, Slice{B: b, L: len(b)}}
 	return Iface{T: types.NewPointer(t), V: Ptr(p)}, true
+}
+
+// symItoa renders a symbolic integer in decimal without enumerating its
+// values: the path forks on sign and digit count only; each digit is the
+// term (x / 10^i) % 10 + '0'.
+func (in *Interp) symItoa(v SInt, signed bool) Str {
+	tb := in.tb
+	x := tb.Resize(v.T, 64, signed)
+	out := Str{}
+	if signed && in.ex.Branch(tb.Bin(OpBvSlt, x, tb.Const(SoBV64, 0))) {
+		out = Str{S: "-"}
+		x = tb.BvNeg(x)
+	}
+	pow := uint64(10)
+	nd := 1
+	for ; nd < 20; nd++ {
+		if in.ex.Branch(tb.Bin(OpBvUlt, x, tb.Const(SoBV64, pow))) {
+			break
+		}
+		pow *= 10
+	}
+	sym := make([]*Term, nd)
+	div := uint64(1)
+	for i := nd - 1; i >= 0; i-- {
+		q := x
+		if div != 1 {
+			q = tb.Bin(OpBvUDiv, x, tb.Const(SoBV64, div))
+		}
+		d := tb.Bin(OpBvURem, q, tb.Const(SoBV64, 10))
+		sym[i] = tb.Bin(OpBvAdd, tb.Resize(d, 8, false), tb.Const(SoBV8, '0'))
+		div *= 10
+	}
+	return concatStr(out, Str{S: string(make([]byte, nd)), Sym: sym}.norm())
 }
